@@ -40,6 +40,37 @@ def import_(sid):
     print("imported", dst)
 
 
+def run_scratch(sid, checks):
+    """Same, but against a scratch copy of /repo's tree with the patch applied (ELIOT_SRC), for when
+    something else is using /repo (a background thorough run).  The scratch copy is removed."""
+    d = os.path.join(VERIF, "seeded", sid)
+    patch = os.path.join(d, "patch.diff")
+    scratch = "/tmp/seeded_scratch_%s" % sid
+    sh("rm -rf %s && mkdir -p %s && cp -r /repo/eliot %s/eliot" % (scratch, scratch, scratch))
+    r = sh("cd %s && patch -p1 < %s" % (scratch, patch))
+    if r.returncode:
+        sys.exit("patch does not apply: " + r.stdout + r.stderr)
+    out = {}
+    try:
+        for c in checks:
+            env = dict(os.environ, VERIF_SHRINK_S="20", ELIOT_SRC=scratch)
+            p = sh("cd %s && /venv/bin/python check.py %s --tier quick" % (VERIF, c), env=env)
+            lines = p.stdout.strip().split("\n")
+            summary = lines[-1] if lines else ""
+            m = re.search(r"violations: (.*)$", summary)
+            viol = [l for l in lines if l.startswith("VIOLATION")]
+            out[c] = {"exit": p.returncode, "violation_lines": len(viol), "how": "scratch copy of /repo + patch (ELIOT_SRC)",
+                      "signatures": m.group(1)[:600] if m else "", "caught": p.returncode == 1 and bool(viol)}
+            print(c, "exit", p.returncode, "|", summary[:300])
+    finally:
+        sh("rm -rf %s" % scratch)
+        sh("rm -f %s/replays/*.json" % VERIF)
+    mp = os.path.join(d, "meta.json")
+    meta = json.load(open(mp))
+    meta.setdefault("checks", {}).update(out)
+    json.dump(meta, open(mp, "w"), indent=1)
+
+
 def run(sid, checks):
     d = os.path.join(VERIF, "seeded", sid)
     patch = os.path.join(d, "patch.diff")
@@ -75,6 +106,8 @@ def run(sid, checks):
 if __name__ == "__main__":
     if sys.argv[1] == "--import":
         import_(sys.argv[2])
+    elif sys.argv[1] == "--scratch":
+        run_scratch(sys.argv[2], sys.argv[3:] or [sys.argv[2]])
     else:
         sid = sys.argv[1]
         run(sid, sys.argv[2:] or [sid])
